@@ -2676,6 +2676,7 @@ def shape_of(tree):
         'augs': {q: aug_forms(f) for q, f in functions(tree) if aug_forms(f)},
         'raises': {q: sorted({_txt(r.exc) for r in _fn_walk(f) if isinstance(r, ast.Raise) and r.exc is not None}) for q, f in functions(tree)
                    if any(isinstance(r, ast.Raise) and r.exc is not None for r in _fn_walk(f))},
+        'continues': {q: sum(1 for n in _fn_walk(f) if isinstance(n, ast.Continue)) for q, f in functions(tree) if any(isinstance(n, ast.Continue) for n in _fn_walk(f))},
         'lentests': {q: len_test_texts(f) for q, f in functions(tree) if len_test_texts(f)},
         'listtargets': {q: sorted({_txt(t) for a in _fn_walk(f) if isinstance(a, ast.Assign) for t in a.targets if isinstance(t, ast.List)}) for q, f in functions(tree)
                         if any(isinstance(t, ast.List) for a in _fn_walk(f) if isinstance(a, ast.Assign) for t in a.targets)},
@@ -3124,6 +3125,307 @@ def respell_len_tests(tree, ref):
             else:
                 getattr(parent, fld)[idx] = new
             n += 1
+    return n
+
+
+# ---------------------------------------------------------------------------------------------- assignment expressions
+def _leftmost_named(e):
+    """the NamedExpr that is evaluated first, unconditionally, when ``e`` is evaluated (or None)"""
+    while True:
+        if isinstance(e, ast.NamedExpr):
+            return e
+        if isinstance(e, ast.Compare):
+            e = e.left
+        elif isinstance(e, ast.BoolOp):
+            e = e.values[0]
+        elif isinstance(e, ast.UnaryOp):
+            e = e.operand
+        elif isinstance(e, ast.Call) and not isinstance(e.func, ast.NamedExpr) and isinstance(e.func, (ast.Name, ast.Attribute)) and e.args:
+            e = e.args[0] if not isinstance(e.func, ast.Attribute) else None
+            if e is None:
+                return None
+        else:
+            return None
+
+
+def expand_walrus(tree, ref):
+    """`if (link := self.link) is not None:` -> `link = self.link` followed by `if link is not None:` - when the assignment expression
+    is the first thing the test evaluates (so hoisting it changes neither order nor number of evaluations).  An `elif` becomes
+    `else:` + the two statements.  Also `x = (y := E)`.  Only where the reference function has no assignment expression."""
+    n = 0
+    for q, f in functions(tree):
+        if not any(isinstance(x, ast.NamedExpr) for x in _fn_walk(f)):
+            continue
+        for _ in range(6):
+            changed = False
+            for holder in list(_fn_walk(f)):
+                for fld in ('body', 'orelse', 'finalbody'):
+                    blk = getattr(holder, fld, None)
+                    if not isinstance(blk, list):
+                        continue
+                    for i, st in enumerate(blk):
+                        tgt = None
+                        if isinstance(st, ast.If):
+                            tgt = _leftmost_named(st.test)
+                        elif isinstance(st, (ast.Assign, ast.Return, ast.Expr)) and st.value is not None:
+                            tgt = _leftmost_named(st.value) if isinstance(st.value, (ast.NamedExpr, ast.Compare, ast.BoolOp, ast.UnaryOp)) else None
+                        if tgt is None or not isinstance(tgt.target, ast.Name):
+                            continue
+                        asg = ast.copy_location(ast.Assign(targets=[ast.Name(id=tgt.target.id, ctx=ast.Store())], value=tgt.value), st)
+                        asg.lineno = st.lineno - 0.5
+                        name = ast.copy_location(ast.Name(id=tgt.target.id, ctx=ast.Load()), tgt)
+                        for parent in ast.walk(st):
+                            for f2, val in ast.iter_fields(parent):
+                                if val is tgt:
+                                    setattr(parent, f2, name)
+                                elif isinstance(val, list):
+                                    for k, x in enumerate(val):
+                                        if x is tgt:
+                                            val[k] = name
+                        if isinstance(st, ast.If) and st.test is tgt:
+                            st.test = name
+                        blk.insert(i, asg)
+                        n += 1
+                        changed = True
+                        break
+                    if changed:
+                        break
+                if changed:
+                    break
+            if not changed:
+                break
+    if n:
+        ast.fix_missing_locations(tree)
+    return n
+
+
+# ---------------------------------------------------------------------------------------------- predicate helpers
+_FLIP = {ast.Eq: ast.NotEq, ast.NotEq: ast.Eq, ast.Is: ast.IsNot, ast.IsNot: ast.Is, ast.In: ast.NotIn, ast.NotIn: ast.In}
+
+
+def _negate(e):
+    if isinstance(e, ast.UnaryOp) and isinstance(e.op, ast.Not):
+        return e.operand
+    if isinstance(e, ast.Compare) and len(e.ops) == 1 and type(e.ops[0]) in _FLIP:
+        return ast.copy_location(ast.Compare(left=e.left, ops=[_FLIP[type(e.ops[0])]()], comparators=e.comparators), e)
+    return ast.copy_location(ast.UnaryOp(op=ast.Not(), operand=e), e)
+
+
+def fold_predicate_helpers(tree, ref):
+    """A new private function that answers yes / no through early returns -
+        if A: return False;  x = V;  if B: return True;  return C
+    is the one expression `(not A) and (B' or C')` (x read through V, which must be pure: it is evaluated only where the original
+    reached it, possibly more than once).  As a single-return function it can then be inlined at its call sites like any other helper."""
+    known = set(ref.get('funcs', []))
+    n = 0
+    for q, f in functions(tree):
+        if q in known or not f.name.startswith('_') or f.name.startswith('__'):
+            continue
+        body = f.body[1:] if _has_doc(f.body) else f.body
+        if len(body) < 2 or not isinstance(body[-1], ast.Return) or body[-1].value is None:
+            continue
+        ok = True
+        for st in body[:-1]:
+            if isinstance(st, ast.If) and not st.orelse and len(st.body) == 1 and isinstance(st.body[0], ast.Return) and \
+                    isinstance(st.body[0].value, ast.Constant) and isinstance(st.body[0].value.value, bool):
+                continue
+            if isinstance(st, ast.Assign) and len(st.targets) == 1 and _pure(st.value, True):
+                t = st.targets[0]
+                if isinstance(t, ast.Name) or (isinstance(t, (ast.Tuple, ast.List)) and len(t.elts) == 1 and isinstance(t.elts[0], ast.Name)):
+                    continue
+            ok = False
+            break
+        if not ok or not any(isinstance(st, ast.If) for st in body[:-1]):
+            continue
+        expr = body[-1].value
+        for st in reversed(body[:-1]):
+            if isinstance(st, ast.If):
+                if st.body[0].value.value is False:
+                    expr = ast.BoolOp(op=ast.And(), values=[_negate(st.test), expr])
+                else:
+                    expr = ast.BoolOp(op=ast.Or(), values=[st.test, expr])
+            else:
+                t = st.targets[0]
+                if isinstance(t, ast.Name):
+                    expr = _Subst({t.id: st.value}).visit(expr)
+                else:
+                    expr = _Subst({t.elts[0].id: ast.Subscript(value=st.value, slice=ast.Constant(value=0), ctx=ast.Load())}).visit(expr)
+        # flatten nested `and`s
+        def flat(e):
+            if isinstance(e, ast.BoolOp):
+                vals = []
+                for v in e.values:
+                    v = flat(v)
+                    if isinstance(v, ast.BoolOp) and type(v.op) is type(e.op):
+                        vals.extend(v.values)
+                    else:
+                        vals.append(v)
+                e.values = vals
+            return e
+        expr = flat(expr)
+        keep = f.body[:1] if _has_doc(f.body) else []
+        f.body = keep + [ast.copy_location(ast.Return(value=expr), body[-1])]
+        ast.fix_missing_locations(f)
+        n += 1
+    return n
+
+
+def fold_guard_flags(tree, ref, ref_locals):
+    """`hit = False` / `if A: hit = B` / `if hit:` (three adjacent statements, `hit` a local the reference does not have and nothing
+    else reads)  ->  `if A and B:`"""
+    n = 0
+    for q, f in functions(tree):
+        known = set((ref_locals or {}).get(q, []) if isinstance((ref_locals or {}).get(q, []), list) else [])
+        for holder in list(_fn_walk(f)):
+            for fld in ('body', 'orelse', 'finalbody'):
+                blk = getattr(holder, fld, None)
+                if not isinstance(blk, list):
+                    continue
+                i = 0
+                while i + 2 < len(blk):
+                    a, b, c = blk[i], blk[i + 1], blk[i + 2]
+                    if isinstance(a, ast.Assign) and len(a.targets) == 1 and isinstance(a.targets[0], ast.Name) and isinstance(a.value, ast.Constant) and a.value.value is False and \
+                            isinstance(b, ast.If) and not b.orelse and len(b.body) == 1 and isinstance(b.body[0], ast.Assign) and len(b.body[0].targets) == 1 and \
+                            _txt(b.body[0].targets[0]) == a.targets[0].id and isinstance(c, ast.If) and isinstance(c.test, ast.Name) and c.test.id == a.targets[0].id:
+                        name = a.targets[0].id
+                        uses = [x for x in ast.walk(f) if isinstance(x, ast.Name) and x.id == name]
+                        if name not in known and len(uses) == 3:
+                            c.test = ast.copy_location(ast.BoolOp(op=ast.And(), values=[b.test, b.body[0].value]), c.test)
+                            del blk[i:i + 2]
+                            n += 1
+                            continue
+                    i += 1
+    if n:
+        ast.fix_missing_locations(tree)
+    return n
+
+
+def nest_early_continues(tree, ref):
+    """`if T: continue` followed by the rest of a loop body -> `if not T: <rest>`, where the function has more `continue`s than the
+    reference's (guard clauses introduced into a loop)."""
+    if 'continues' not in ref:
+        return 0
+    known_funcs = set(ref.get('funcs', []))
+    n = 0
+    for q, f in functions(tree):
+        if q not in known_funcs:
+            continue                     # a new helper is inlined as it stands
+        have = sum(1 for x in _fn_walk(f) if isinstance(x, ast.Continue))
+        want = ref['continues'].get(q, 0)
+        if have <= want:
+            continue
+        budget = have - want
+        for loop in [x for x in _fn_walk(f) if isinstance(x, (ast.For, ast.While))]:
+            def nest(body):
+                nonlocal budget, n
+                for i, st in enumerate(body):
+                    if budget > 0 and isinstance(st, ast.If) and not st.orelse and len(st.body) >= 1 and isinstance(st.body[-1], ast.Continue) and \
+                            all(is_quiet(x) for x in st.body[:-1]) and i + 1 < len(body):
+                        rest = body[i + 1:]
+                        nest(rest)
+                        body[i:] = st.body[:-1] and [ast.copy_location(ast.If(test=st.test, body=st.body[:-1], orelse=rest), st)] or \
+                            [ast.copy_location(ast.If(test=_negate(st.test), body=rest, orelse=[]), st)]
+                        budget -= 1
+                        n += 1
+                        return
+                    if isinstance(st, ast.If):
+                        # a guard nested in an if-branch that ends the iteration there is not touched
+                        pass
+
+            def is_quiet(x):
+                return isinstance(x, ast.Expr) and isinstance(x.value, ast.Call) and _txt(x.value.func).startswith(('logger.', 'logging.'))
+            nest(loop.body)
+    if n:
+        ast.fix_missing_locations(tree)
+    return n
+
+
+def returns_to_breaks(tree, ref):
+    """In a new private procedure whose last statement is a loop (no else clause), a bare `return` inside that loop (not inside an
+    inner loop) ends the procedure exactly like `break` does: written as `break` the procedure has no returns and can be inlined
+    as plain statements."""
+    known = set(ref.get('funcs', []))
+    n = 0
+    for q, f in functions(tree):
+        if q in known or not f.name.startswith('_') or f.name.startswith('__'):
+            continue
+        body = f.body
+        if not body or not isinstance(body[-1], (ast.For, ast.While)) or body[-1].orelse:
+            continue
+        loop = body[-1]
+        if any(isinstance(x, ast.Return) for st in body[:-1] for x in ast.walk(st)):
+            continue
+        rets = []
+
+        def collect(stmts):
+            for st in stmts:
+                if isinstance(st, ast.Return):
+                    rets.append(st)
+                elif isinstance(st, (ast.For, ast.While, ast.FunctionDef, ast.ClassDef)):
+                    if any(isinstance(x, ast.Return) for x in ast.walk(st)):
+                        rets.append(None)
+                else:
+                    for fld in ('body', 'orelse', 'finalbody', 'handlers'):
+                        sub = getattr(st, fld, None)
+                        if isinstance(sub, list):
+                            collect([h for h in sub] if fld != 'handlers' else [x for h in sub for x in h.body])
+        collect(loop.body)
+        if not rets or None in rets or any(r.value is not None for r in rets):
+            continue
+
+        def swap(stmts):
+            for i, st in enumerate(stmts):
+                if isinstance(st, ast.Return):
+                    stmts[i] = ast.copy_location(ast.Break(), st)
+                elif not isinstance(st, (ast.For, ast.While, ast.FunctionDef, ast.ClassDef)):
+                    for fld in ('body', 'orelse', 'finalbody'):
+                        sub = getattr(st, fld, None)
+                        if isinstance(sub, list):
+                            swap(sub)
+                    for h in getattr(st, 'handlers', []) or []:
+                        swap(h.body)
+        swap(loop.body)
+        n += 1
+    return n
+
+
+_ORD_NEG = {ast.Lt: ast.GtE, ast.LtE: ast.Gt, ast.Gt: ast.LtE, ast.GtE: ast.Lt}
+
+
+def loop_guards_to_test(tree, ref):
+    """`while True:` whose body begins with `if C1: break` / `if C2: break` (and which the reference writes with a real test) ->
+    `while not C1 and not C2:` + the rest.  The guards are evaluated at the top of every iteration, in the same order, and a `break`
+    skips the else clause just as a false test does only when there is none - so only loops without else."""
+    rw = ref.get('whiles')
+    if rw is None:
+        return 0
+    n = 0
+    for q, f in functions(tree):
+        ref_tests = rw.get(q, [])
+        if not ref_tests or all(t in ('True', '(True)') for t in ref_tests):
+            continue
+        for w in [x for x in _fn_walk(f) if isinstance(x, ast.While)]:
+            if w.orelse or not (isinstance(w.test, ast.Constant) and w.test.value is True):
+                continue
+            k = 0
+            while k < len(w.body) and isinstance(w.body[k], ast.If) and not w.body[k].orelse and len(w.body[k].body) == 1 and isinstance(w.body[k].body[0], ast.Break):
+                k += 1
+            if k == 0 or k == len(w.body):
+                continue
+            tests = []
+            for g_ in w.body[:k]:
+                t = g_.test
+                if isinstance(t, ast.Compare) and len(t.ops) == 1 and type(t.ops[0]) in _ORD_NEG and \
+                        all(isinstance(x, (ast.Name, ast.Constant, ast.BinOp, ast.Call, ast.Load, ast.Sub, ast.Add, ast.Attribute)) for x in ast.walk(t.left)) and \
+                        any(isinstance(x, ast.Call) and _txt(x.func) == 'len' for x in ast.walk(t)):
+                    tests.append(ast.copy_location(ast.Compare(left=t.left, ops=[_ORD_NEG[type(t.ops[0])]()], comparators=t.comparators), t))     # lengths are integers
+                else:
+                    tests.append(_negate(t))
+            w.test = ast.copy_location(tests[0] if len(tests) == 1 else ast.BoolOp(op=ast.And(), values=tests), w.test)
+            w.body = w.body[k:]
+            n += 1
+    if n:
+        ast.fix_missing_locations(tree)
     return n
 
 # ---------------------------------------------------------------------------------------------- helpers
@@ -5125,15 +5427,15 @@ def normalise(tree, path, ref_locals, model=None):
         return {}
     _CUR_MODEL[0] = model
     out = {}
-    for name, fn in (('moved', lambda: pull_back_moved(tree, ref, path, model) + drop_moved_away(tree, ref, path, model)), ('match', lambda: lower_match(tree, ref)), ('eafp', lambda: undo_eafp_probes(tree, ref)), ('getnone', lambda: undo_get_none_tests(tree, ref, ref_locals)), ('iadd', lambda: extend_as_iadd(tree, ref)), ('enums', lambda: dissolve_enums(tree, ref)), ('namedtuples', lambda: dissolve_namedtuples(tree, ref, path, model)), ('regroup', lambda: regroup_indexed_reads(tree, ref, ref_locals)), ('dataclasses', lambda: undo_dataclasses(tree, ref)), ('dispatch', lambda: undo_dispatch_tables(tree, ref)),
+    for name, fn in (('moved', lambda: pull_back_moved(tree, ref, path, model) + drop_moved_away(tree, ref, path, model)), ('match', lambda: lower_match(tree, ref)), ('walrus', lambda: expand_walrus(tree, ref)), ('eafp', lambda: undo_eafp_probes(tree, ref)), ('getnone', lambda: undo_get_none_tests(tree, ref, ref_locals)), ('iadd', lambda: extend_as_iadd(tree, ref)), ('enums', lambda: dissolve_enums(tree, ref)), ('namedtuples', lambda: dissolve_namedtuples(tree, ref, path, model)), ('regroup', lambda: regroup_indexed_reads(tree, ref, ref_locals)), ('dataclasses', lambda: undo_dataclasses(tree, ref)), ('dispatch', lambda: undo_dispatch_tables(tree, ref)),
                      ('annotations', lambda: strip_annotations(tree, ref)), ('imports', lambda: normalise_imports(tree, ref)), ('attributes', lambda: rename_attributes(tree, ref)),
                      ('methods', lambda: rename_methods(tree, ref)), ('formats', lambda: restyle_formats(tree, ref)), ('spelling', lambda: respell(tree, ref) + respell_len_tests(tree, ref)), ('closures', lambda: restore_closures(tree, ref) + restore_closures_from_objects(tree, ref) + unname_lambdas(tree, ref)), ('self', lambda: restore_self(tree, ref)), ('tuples', lambda: split_tuple_bindings(tree, ref)), ('suppress', lambda: expand_suppress(tree, ref)), ('constants', lambda: _constants(tree, ref)),
                      ('boolindex', lambda: undo_bool_indexing(tree, ref)), ('observability', lambda: drop_observability(tree, ref)), ('params', lambda: default_new_params(tree, ref) + default_new_params(tree, ref)), ('kwargs', lambda: positionalise_keywords(tree, ref, model)), ('initliterals', lambda: inline_init_literals(tree, ref)),
                      ('structs', lambda: inline_struct_objects(tree, ref)),
-                     ('anytests', lambda: lower_any_tests(tree, ref)), ('itertools', lambda: undo_iteration_tools(tree, ref) + undo_iteration_tools(tree, ref)), ('loops', lambda: reshape_loops(tree, ref, ref_locals)), ('helpers', lambda: inline_helpers(tree, ref)), ('namedtuples2', lambda: dissolve_namedtuples(tree, ref, path, model)), ('records', lambda: scalarise_records(tree, ref)), ('tuplevars', lambda: scalarise_tuple_locals(tree, ref, ref_locals)), ('elsedefaults', lambda: hoist_else_defaults(tree, ref)), ('ifexps0', lambda: expand_ifexps(tree, ref)), ('flagtails', lambda: sink_flag_tails(tree, ref, ref_locals)), ('decided', lambda: fold_decided_branches(tree, ref)), ('trivia', lambda: drop_trivia(tree, ref)), ('ifexps', lambda: expand_ifexps(tree, ref)), ('boolreturns', lambda: expand_bool_returns(tree, ref)),
+                     ('anytests', lambda: lower_any_tests(tree, ref)), ('itertools', lambda: undo_iteration_tools(tree, ref) + undo_iteration_tools(tree, ref)), ('continues', lambda: nest_early_continues(tree, ref) + loop_guards_to_test(tree, ref)), ('loops', lambda: reshape_loops(tree, ref, ref_locals)), ('predicates', lambda: fold_predicate_helpers(tree, ref) + fold_guard_flags(tree, ref, ref_locals) + returns_to_breaks(tree, ref)), ('helpers', lambda: inline_helpers(tree, ref)), ('namedtuples2', lambda: dissolve_namedtuples(tree, ref, path, model)), ('records', lambda: scalarise_records(tree, ref)), ('tuplevars', lambda: scalarise_tuple_locals(tree, ref, ref_locals)), ('elsedefaults', lambda: hoist_else_defaults(tree, ref)), ('ifexps0', lambda: expand_ifexps(tree, ref)), ('flagtails', lambda: sink_flag_tails(tree, ref, ref_locals)), ('decided', lambda: fold_decided_branches(tree, ref)), ('trivia', lambda: drop_trivia(tree, ref)), ('ifexps', lambda: expand_ifexps(tree, ref)), ('boolreturns', lambda: expand_bool_returns(tree, ref)),
                      ('unrolled', lambda: unroll_loops(tree, ref)), ('builtlists', lambda: scalarise_built_lists(tree, ref, ref_locals)),
                      ('comprehensions', lambda: expand_comprehensions(tree, ref) + collapse_append_loops(tree, ref)), ('ifexps2', lambda: expand_ifexps(tree, ref)),
-                     ('ranges', lambda: split_live_ranges(tree, ref_locals or {})), ('temps', lambda: inline_temps(tree, path, ref_locals or {})),
+                     ('ranges', lambda: split_live_ranges(tree, ref_locals or {})), ('temps', lambda: inline_temps(tree, path, ref_locals or {})), ('loopguards', lambda: loop_guards_to_test(tree, ref)),
                      ('decided2', lambda: _settle(tree, ref, path, ref_locals or {}))):
         try:
             k = fn()
